@@ -198,6 +198,20 @@ Definition bind_opt (en : env) (x : option id) (w : value) : env :=
 Definition unbind_opt (x : option id) (r : sres) : sres :=
   match x with Some y => set_env r (remove (env_of r) y) | None => r end.
 
+(* the iterations of a for loop, given the executor at the (smaller) fuel of the loop statement *)
+Fixpoint for_go (ex : env -> stmt -> out sres) (x : id) (b els : stmt) (l : list value) (en0 : env) {struct l} : out sres :=
+  match l with
+  | [] => ex en0 els
+  | w :: r =>
+      obind (ex (update en0 x w) b) (fun res =>
+        match res with
+        | Normal en' => for_go ex x b els r en'
+        | Continued en' => for_go ex x b els r en'
+        | Broke en' => Val (Normal en')
+        | _ => Val res
+        end)
+  end.
+
 Fixpoint eval (P : prog) (fuel : nat) (en : env) (e : expr) {struct fuel} : out value :=
   match fuel with
   | O => NoFuel
@@ -294,18 +308,7 @@ with exec (P : prog) (fuel : nat) (en : env) (s : stmt) {struct fuel} : out sres
     | SFor x rng e b els =>
         slift en (eval P f en e) (fun v =>
           obind (iter_values rng v) (fun vs =>
-            (fix go (l : list value) (en0 : env) {struct l} : out sres :=
-               match l with
-               | [] => exec P f en0 els
-               | w :: r =>
-                   obind (exec P f (update en0 x w) b) (fun res =>
-                     match res with
-                     | Normal en' => go r en'
-                     | Continued en' => go r en'
-                     | Broke en' => Val (Normal en')
-                     | _ => Val res
-                     end)
-               end) vs en))
+            for_go (exec P f) x b els vs en))
     | SBreak => Val (Broke en)
     | SContinue => Val (Continued en)
     | SRaise c args =>
